@@ -679,7 +679,7 @@ def render_norm(e):
 
 
 def fn_text(fn):
-    return ";".join(render_stmt(s) for s in fn.block["stmts"])
+    return Txt(";".join(render_stmt(s) for s in fn.block["stmts"]))
 
 
 def tokens_compact(ts):
@@ -703,3 +703,140 @@ def tokens_compact(ts):
         out.append(s_)
         prev_word = word
     return "".join(out)
+
+
+# ---------------------------------------------------------------- name-insensitive matching of rendered code
+
+import re as _re_mod
+
+_KW = {
+    "as", "break", "const", "continue", "crate", "dyn", "else", "enum", "extern", "false", "fn", "for", "if", "impl", "in", "let", "loop",
+    "match", "mod", "move", "mut", "pub", "ref", "return", "self", "Self", "static", "struct", "super", "trait", "true", "type", "unsafe",
+    "use", "where", "while", "_",
+}
+_wild_cache = {}
+
+
+def wild(pattern, hash_only=False):
+    """Regex for `pattern` (a piece of rendered code) in which *local names* are wildcards that must be
+    used consistently inside the pattern: lower-case bare identifiers that are not keywords, not field /
+    method names (after `.`), not path segments (next to `::`), not macro names (before `!`), not called
+    functions (before `(`), not field labels (before a single `:`) and not inside string literals.
+    `#name` interpolations are always wildcards. With hash_only only `#name` is generalised (template text)."""
+    key = (pattern, hash_only)
+    if key in _wild_cache:
+        return _wild_cache[key]
+    out = []
+    seen = {}
+    i = 0
+    n = len(pattern)
+    while i < n:
+        c = pattern[i]
+        if c == '"':
+            j = i + 1
+            while j < n and pattern[j] != '"':
+                j += 2 if pattern[j] == "\\" else 1
+            out.append(_re_mod.escape(pattern[i : j + 1]))
+            i = j + 1
+            continue
+        if c.isalpha() or c == "_":
+            j = i
+            while j < n and (pattern[j].isalnum() or pattern[j] == "_"):
+                j += 1
+            word = pattern[i:j]
+            prev = pattern[i - 1] if i else ""
+            prev2 = pattern[i - 2 : i]
+            nxt = pattern[j] if j < n else ""
+            nxt2 = pattern[j : j + 2]
+            is_hash = prev == "#"
+            fixed = True
+            if is_hash:
+                fixed = False
+            elif not hash_only:
+                fixed = (
+                    word in _KW
+                    or not (word[0].islower() or word[0] == "_")
+                    or prev == "."
+                    or prev == "'"
+                    or prev2 == "::"
+                    or nxt2 == "::"
+                    or nxt == "!"
+                    or nxt == "("
+                    or (nxt == ":" and nxt2 != "::")
+                    or prev.isdigit()
+                    or (prev == "$")
+                )
+            if fixed:
+                out.append(_re_mod.escape(word))
+            else:
+                g = "v_" + word
+                if g in seen:
+                    out.append(f"(?P={g})")
+                else:
+                    seen[g] = True
+                    out.append(f"(?P<{g}>[A-Za-z_][A-Za-z0-9_]*)")
+            i = j
+            continue
+        out.append(_re_mod.escape(c))
+        i += 1
+    rx = _re_mod.compile("".join(out))
+    _wild_cache[key] = rx
+    return rx
+
+
+class Txt(str):
+    """rendered code; `pattern in Txt` matches with local names as consistent wildcards"""
+
+    def __contains__(self, pattern):
+        if str.__contains__(self, pattern):
+            return True
+        try:
+            return wild(pattern).search(self) is not None
+        except _re_mod.error:
+            return False
+
+    def has_exact(self, pattern):
+        return str.__contains__(self, pattern)
+
+
+class TTxt(str):
+    """template text; `pattern in TTxt` treats `#name` interpolations as consistent wildcards"""
+
+    def __contains__(self, pattern):
+        if str.__contains__(self, pattern):
+            return True
+        try:
+            return wild(pattern, hash_only=True).search(self) is not None
+        except _re_mod.error:
+            return False
+
+    def same(self, pattern):
+        if self == pattern:
+            return True
+        try:
+            return wild(pattern, hash_only=True).fullmatch(self) is not None
+        except _re_mod.error:
+            return False
+
+
+class TList(list):
+    """list of template texts; `pattern in TList` = some template equals the pattern up to `#name` renaming"""
+
+    def __contains__(self, pattern):
+        return any((t == pattern) or (isinstance(t, TTxt) and t.same(pattern)) for t in self)
+
+
+def wsearch(text, pattern):
+    """search `pattern` in rendered `text` with local names as consistent wildcards; returns the match (groups v_<name>)"""
+    return wild(pattern).search(text)
+
+
+def wfull(text, pattern):
+    return wild(pattern).fullmatch(text)
+
+
+def canon_names(text, mapping):
+    """replace local names by role tokens ({'local': 'ROLE'})"""
+    for a, b in mapping.items():
+        text = _re_mod.sub(r"(?<![A-Za-z0-9_.#])%s(?![A-Za-z0-9_])" % _re_mod.escape(a), b, text)
+    return text
